@@ -61,14 +61,34 @@ let definition line =
 let okind = function ODecl -> "d" | OTarget -> "t" | OUse -> "u"
 let show_loc (a, b) = Printf.sprintf "%d-%d" (int_of_nat a) (int_of_nat b)
 let show_report = function
-  | Shadowing (_, p, s) -> Printf.sprintf "CS0001:%s:%s" (show_loc p) (show_loc s)
-  | ParamCollision (_, l) -> Printf.sprintf "CS0002:%s:-" (show_loc l)
+  | Shadowing (n, p, s) -> Printf.sprintf "CS0001:%s:%s:%s" (show_loc p) (show_loc s) (string_of_name n)
+  | ParamCollision (n, l) -> Printf.sprintf "CS0002:%s:-:%s" (show_loc l) (string_of_name n)
 let show_lifted n =
   match lift_name n with
   | None -> "INVALID(" ^ string_of_name n ^ ")"
   | Some v ->
     Printf.sprintf "%s/%s" (string_of_name v.Ir.vn_name)
       (match v.Ir.vn_suffix with None -> "-" | Some s -> string_of_name s)
+
+let type_letter = function KVar -> "L" | KSignal -> "S" | KComponent -> "C" | KAnon -> "A"
+let show_vname v =
+  Printf.sprintf "%s/%s" (string_of_name v.Ir.vn_name)
+    (match v.Ir.vn_suffix with None -> "-" | Some s -> string_of_name s)
+let show_decl (l, k) = Printf.sprintf "@%s:%s" (show_loc l) (type_letter k)
+(* the Declarations table (sorted rows, as the harness prints it) and the answer
+   of get_declaration for every occurrence *)
+let show_table params ploc body' o =
+  match build_table params ploc body' with
+  | Base.Ok (Some t) ->
+    let rows = Stdlib.List.sort compare (Stdlib.List.map (fun (v, d) -> show_vname v ^ show_decl d) t) in
+    let dcl = Stdlib.List.map (fun (k, n) ->
+        match lift_name n with
+        | None -> okind k ^ "?"
+        | Some v -> (match get_declaration_of v t with None -> okind k ^ "-" | Some d -> okind k ^ show_decl d)) o in
+    Printf.sprintf "tab %s | dcl %s" (Stdlib.String.concat " " rows) (Stdlib.String.concat " " dcl)
+  | Base.Ok None -> "tab INVALID | dcl INVALID"
+  | Base.Panic s -> Printf.sprintf "tab panic %d | dcl panic" (int_of_z s)
+  | _ -> "tab error | dcl error"
 
 let mirror line =
   try
@@ -78,24 +98,56 @@ let mirror line =
     | Panicked s -> Printf.sprintf "ren panic %d" (int_of_z s)
     | Renamed (body', reports) ->
       let o = occs body' in
-      Printf.sprintf "ren %s | rep %s | ir %s"
+      Printf.sprintf "ren %s | rep %s | ir %s | %s"
         (Stdlib.String.concat " " (Stdlib.List.map (fun (k, n) -> okind k ^ "=" ^ string_of_name n) o))
         (Stdlib.String.concat " " (Stdlib.List.map show_report reports))
         (Stdlib.String.concat " " (Stdlib.List.map (fun (k, n) -> okind k ^ "=" ^ show_lifted n) o))
+        (show_table params ploc body' o)
   with Bad m -> "bad-line " ^ m
 
 let spec line =
   try
     let (params, ploc, body) = definition line in
     let (o, sh) = ScopeSpec.resolve_def params ploc body in
-    Printf.sprintf "closed %d | occ %s | sh %s"
+    let rec names_of = function
+      | UBlock ss | UInit ss -> Stdlib.List.concat_map names_of ss
+      | UDecl (_, n, _, dims) -> n :: dims
+      | USubst (n, u) -> n :: u
+      | UExpr (_, u) -> u
+      | UWhile (c, b) -> c @ names_of b
+      | UIf (c, t, e) -> c @ names_of t @ (match e with None -> [] | Some e0 -> names_of e0) in
+    let all = params @ names_of body in
+    Printf.sprintf "closed %d | ident %d %d | occ %s | sh %s"
       (if ScopeSpec.branch_closed body then 1 else 0)
+      (Stdlib.List.length (Stdlib.List.filter ident_ok all)) (Stdlib.List.length all)
       (Stdlib.String.concat " " (Stdlib.List.map (fun ((k, n), d) ->
          Printf.sprintf "%s=%s#%s" (okind k) (string_of_name n)
            (match d with None -> "-" | Some j -> string_of_int (int_of_nat j))) o))
       (Stdlib.String.concat " " (Stdlib.List.map (fun ((n, (k, l)), (k', l')) ->
          Printf.sprintf "%s#%d@%s<%d@%s" (string_of_name n) (int_of_nat k) (show_loc l) (int_of_nat k') (show_loc l')) sh))
   with Bad m -> "bad-line " ^ m
+
+(* identchar: BYTE (decimal) -> the extracted character class of identifiers *)
+let identchar line =
+  try Printf.sprintf "%d" (if ident_char (n_of_int (int_of_string (Stdlib.String.trim line))) then 1 else 0)
+  with _ -> "bad-line"
+
+(* keyfmt: pieces of the Some arm `;` pieces of the None arm (n, s, l:HEX) -> the
+   extracted decision key_format_ok on that format (lint of lib/props/c10key.py) *)
+let keyfmt line =
+  let piece t =
+    if t = "n" then KName else if t = "s" then KSuffix
+    else if Stdlib.String.length t >= 2 && Stdlib.String.sub t 0 2 = "l:" then begin
+      let h = Stdlib.String.sub t 2 (Stdlib.String.length t - 2) in
+      KLit (Stdlib.List.init (Stdlib.String.length h / 2) (fun i -> n_of_int (int_of_string ("0x" ^ Stdlib.String.sub h (2 * i) 2))))
+    end else raise (Bad t) in
+  try
+    match Stdlib.String.split_on_char ';' line with
+    | [a; b] ->
+      let ps x = Stdlib.List.map piece (Stdlib.List.filter (fun s -> s <> "") (Stdlib.String.split_on_char ' ' (Stdlib.String.trim x))) in
+      Printf.sprintf "%d" (if key_format_ok (ps a) (ps b) then 1 else 0)
+    | _ -> "bad-line"
+  with _ -> "bad-line"
 
 (* keys: NAME SUFFIX|- -> old key, new key *)
 let keys line =
@@ -110,4 +162,6 @@ let () =
   | _ :: "mirror" :: _ -> each_line mirror
   | _ :: "spec" :: _ -> each_line spec
   | _ :: "keys" :: _ -> each_line keys
-  | _ -> prerr_endline "usage: model_uniq mirror|spec|keys"; exit 2
+  | _ :: "keyfmt" :: _ -> each_line keyfmt
+  | _ :: "identchar" :: _ -> each_line identchar
+  | _ -> prerr_endline "usage: model_uniq mirror|spec|keys|keyfmt|identchar"; exit 2
